@@ -116,8 +116,83 @@ def decideL (clause : String) (c : Caller) (exact : Bool) (obs : List String)
     (c.specDeadlines exact).any (fun h => (spec h).any (fun e => renderExpect true e == obsStr obs))
   (m, verdict [(clause, ok)])
 
+/-- `(<caller> <latency|never>)+` -/
+def calls? : List String → Option (List (Caller × Option Nat))
+  | [] => some []
+  | [_] => none
+  | c :: l :: rest =>
+    match caller? c, lat? l, calls? rest with
+    | some c, some l, some r => some ((c, l) :: r)
+    | _, _, _ => none
+
+/-- The observed tokens of a call sequence: one segment per call, separated by `|`. -/
+def segs (obs : List String) : List (List String) :=
+  obs.foldr (fun t acc =>
+    if t = "|" then [] :: acc
+    else match acc with
+      | [] => [[t]]
+      | s :: r => (t :: s) :: r) [[]]
+
+/-- Several calls through one middleware / one `Channel` / one server connection.  Model: the
+state-threading model of the code (or `panic` if some `set_timeout` panics).  Verdict: there is
+one segment per call and EVERY call is observed as `Spec.Timeout.expectedEach` demands — what the
+call would give alone, with its own deadline (under one admissible reading of it) and the
+configured timeout, whatever the other calls of the sequence carried. -/
+def decideSeq (clause : String) (exact : Bool) (conf : Option Nat) (calls : List (Caller × Option Nat))
+    (obs : List String) (model : List (Option Nat × Option Nat) → List Done) : String × String :=
+  let hs := calls.mapM (fun c => (c.1.modelHeader exact).map (fun h => (h, c.2)))
+  let m := match hs with
+    | some hl => String.intercalate " | " ((model hl).map (renderDone true))
+    | none => "panic"
+  let ss := segs obs
+  let ok := !calls.isEmpty && ss.length == calls.length &&
+    (calls.zip ss).all (fun co =>
+      co.1.1.outOfRange ||
+      (co.1.1.specDeadlines exact).any (fun h =>
+        (Spec.Timeout.expectedEach conf [(h, co.1.2)]).map (renderExpect true) == [obsStr co.2]))
+  (m, verdict [(clause, ok)])
+
+def plainReplies (hl : List (Option Nat × Option Nat)) : List (Option Nat × Reply) :=
+  hl.map fun c => (c.1, plainPeer c.2)
+
 def handle (case obs : List String) : String × String :=
   match case with
+  | "mw" :: s :: rest =>
+    -- ONE `GrpcTimeout` value (hook, under RecoverError) called once per pair, one after the other
+    match optNat? s, calls? rest with
+    | some s, some calls =>
+      decideSeq "middleware-calls-are-independent" false s calls obs
+        (fun hl => mwCalls ⟨s⟩ (hl.map fun c => (c.1, answer c.2)))
+    | _, _ => bad
+  | "chan" :: peer :: e :: rest =>
+    -- calls one after the other on ONE real Channel against a peer that enforces nothing
+    match optNat? e, calls? rest with
+    | some e, some calls =>
+      if peer = "silent" || peer = "routes" then
+        decideSeq "calls-on-one-channel-are-independent" false e calls obs
+          (fun hl => channelCalls ⟨e⟩ (plainReplies hl))
+      else bad
+    | _, _ => bad
+  | "chano" :: peer :: e :: g :: rest =>
+    -- the same, call i dispatched `i * g` after the first (overlapping), times per call
+    match optNat? e, nat? g, calls? rest with
+    | some e, some _, some calls =>
+      if peer = "silent" || peer = "routes" then
+        decideSeq "overlapping-calls-on-one-channel-are-independent" false e calls obs
+          (fun hl => channelCalls ⟨e⟩ (plainReplies hl))
+      else bad
+    | _, _, _ => bad
+  | "conn" :: s :: rest =>
+    -- requests one after the other on ONE HTTP/2 connection to a real transport::Server
+    match optNat? s, calls? rest with
+    | some s, some calls =>
+      decideSeq "requests-on-one-connection-are-independent" true s calls obs (connCalls ⟨s⟩)
+    | _, _ => bad
+  | "conno" :: s :: g :: rest =>
+    match optNat? s, nat? g, calls? rest with
+    | some s, some _, some calls =>
+      decideSeq "overlapping-requests-on-one-connection-are-independent" true s calls obs (connCalls ⟨s⟩)
+    | _, _, _ => bad
   | ["runl", c, s, l, b] =>
     -- the middleware alone, its future obtained at time 0 and first polled at `b`
     match caller? c, optNat? s, lat? l, nat? b with
